@@ -93,11 +93,51 @@ def reset_world():
             s.ask({"reset": True})
 
 
+STACKS = (None, None, None, {"deep": 600}, {"low_limit": 140}, {"deep": 300, "low_limit": 140})
+
+
+def _frames():
+    import sys
+    f, n = sys._getframe(), 0
+    while f is not None:
+        n += 1
+        f = f.f_back
+    return n
+
+
+def in_stack(stack, thunk):
+    """Run thunk() the way a caller deep inside its own recursion, or one that lowered the interpreter's recursion
+    limit, would: `deep` extra frames below the call, and / or a recursion limit only `low_limit` frames above the
+    call site.  Both are process state a library function must cope with (or fail loudly), never answer wrongly."""
+    import sys
+    if not stack:
+        return thunk()
+    deep = int(stack.get("deep", 0))
+    low = stack.get("low_limit")
+    if not 0 <= deep <= 800 or (low is not None and not 100 <= int(low) <= 1000):
+        from sim.sched import InvalidCase
+        raise InvalidCase("stack")
+
+    def at_depth(k):
+        if k > 0:
+            return at_depth(k - 1)
+        if low is None:
+            return thunk()
+        old = sys.getrecursionlimit()
+        sys.setrecursionlimit(_frames() + int(low))
+        try:
+            return thunk()
+        finally:
+            sys.setrecursionlimit(max(old, 1000))
+    return at_depth(deep)
+
+
 def call_bottleneck(sched, A, B, matching=False, mode="uniform", warn_filter="always",
-                    site="bottleneck"):
+                    site="bottleneck", stack=None):
     """Run persim.bottleneck under a scheduler-owned set order.
     Returns (value, rows_or_None, n_warnings).  Exceptions become violations."""
-    bott, _ = sut()
+    bott_, _ = sut()
+    bott = bott_ if not stack else (lambda *a_, **k_: in_stack(stack, lambda: bott_(*a_, **k_)))
     with simset.order_scope(sched, mode):
         with warnings.catch_warnings(record=True) as w:
             warnings.simplefilter(warn_filter)
